@@ -125,14 +125,26 @@ def foreign_text_probes(rep):
         probes.append(("id('(a b)... -> a... b...', rank %d, b=tuple)" % r, lambda r=r: einx.id("(a b)... -> a... b...", np.zeros((2,) * r)[tuple([slice(0, 1)] * (r - 6))], b=(1,) * r)))
     saved = np.get_printoptions()
     results = []
+    import signal
+
+    class _ProbeTimeout(BaseException):
+        pass
+
+    def _on_alarm(*a):
+        raise _ProbeTimeout()
+    old_handler = signal.signal(signal.SIGALRM, _on_alarm)
     try:
         for opts in ({}, {"linewidth": 20}, {"threshold": 3, "edgeitems": 1}, {"precision": 1, "linewidth": 40, "threshold": 5}):
             np.set_printoptions(**{**saved, **opts})
             for label, fn in probes:
                 rep.evaluations += 1
+                signal.alarm(60)          # every probe is tiny: one that has not finished after a minute does not terminate in practice
                 try:
                     fn()
                     out = "ok"
+                except _ProbeTimeout:
+                    out = "timeout"
+                    results.append((label, opts, "Timeout", "the call did not finish within 60 s (on the unchanged tree every probe takes well under a second)"))
                 except einx.errors.SyntaxError as e:
                     out = "SyntaxError"
                     results.append((label, opts, "SyntaxError", str(e)[:300]))
@@ -141,11 +153,15 @@ def foreign_text_probes(rep):
                     results.append((label, opts, type(e).__name__, str(e)[:300]))
                 except Exception as e:
                     out = type(e).__name__
+                finally:
+                    signal.alarm(0)
     finally:
+        signal.alarm(0)
+        signal.signal(signal.SIGALRM, old_handler)
         np.set_printoptions(**saved)
     rep.extra["foreign_text_probes"] = len(probes) * 4
     for label, opts, cls, msg in results:
-        rep.violation({"kind": "syntax-error-about-text-the-caller-did-not-write" if cls == "SyntaxError" else "internal-exception", "cls": cls, "probe": label.split("(")[0], "printoptions": bool(opts)},
+        rep.violation({"kind": "syntax-error-about-text-the-caller-did-not-write" if cls == "SyntaxError" else ("does-not-terminate" if cls == "Timeout" else "internal-exception"), "cls": cls, "probe": label.split("(")[0], "printoptions": bool(opts)},
                       {"text": label, "printoptions": opts}, "%s with numpy print options %s: %s: %s" % (label, opts or "default", cls, msg))
 
 
